@@ -205,6 +205,9 @@ theorem str_parts (v : Ver) :
     v.str = v.public ++ (match v.localStr with | some l => 43 :: l | none => []) ∧
     v.public = v.base ++ (preS v.pre ++ (postS v.post ++ devS v.dev)) := ⟨rfl, public_eq v⟩
 
+/-- `Version.public` as the code computes it — `str(self).split("+", 1)[0]` — is the model's `public` -/
+theorem public_is_split (v : Ver) (h : WF v) : (splitOn 43 v.str).head? = some v.public := V.public_is_split v h
+
 theorem flags (v : Ver) :
     v.isPre = (v.pre.isSome || v.dev.isSome) ∧ v.isPost = v.post.isSome ∧ v.isDev = v.dev.isSome := by
   simp [Ver.isPre, Ver.isPost, Ver.isDev, Bool.or_comm]
